@@ -1693,4 +1693,72 @@ theorem coerceModel_spec (c : CEnv J K V) (j : J) :
 
 end Coercion
 
+/-! ### `str.strip()` -/
+
+theorem dropWhile_head_not (p : Nat → Bool) (l : List Nat) (c : Nat) (h : (l.dropWhile p).head? = some c) : p c = false := by
+  induction l with
+  | nil => simp at h
+  | cons x xs ih =>
+    rw [List.dropWhile_cons] at h
+    split at h
+    · exact ih h
+    · simp at h; subst h; simp_all
+
+theorem takeWhile_all (p : Nat → Bool) (l : List Nat) : ∀ c ∈ l.takeWhile p, p c = true := by
+  induction l with
+  | nil => simp
+  | cons x xs ih =>
+    intro c hc
+    rw [List.takeWhile_cons] at hc
+    split at hc
+    · simp at hc
+      rcases hc with rfl | hc
+      · assumption
+      · exact ih c hc
+    · simp at hc
+
+theorem strip_spec (t : Text) :
+    ∃ a b, t = a ++ strip t ++ b ∧ (∀ c ∈ a, isSpace c = true) ∧ (∀ c ∈ b, isSpace c = true) ∧
+      (∀ c, (strip t).head? = some c → isSpace c = false) ∧ (∀ c, (strip t).getLast? = some c → isSpace c = false) := by
+  have h1 : t = t.takeWhile isSpace ++ t.dropWhile isSpace := (List.takeWhile_append_dropWhile).symm
+  have h2 : (t.dropWhile isSpace).reverse = (t.dropWhile isSpace).reverse.takeWhile isSpace ++
+      (t.dropWhile isSpace).reverse.dropWhile isSpace := (List.takeWhile_append_dropWhile).symm
+  have h3 : t.dropWhile isSpace = strip t ++ ((t.dropWhile isSpace).reverse.takeWhile isSpace).reverse := by
+    have := congrArg List.reverse h2
+    rw [List.reverse_reverse, List.reverse_append] at this
+    exact this
+  refine ⟨t.takeWhile isSpace, ((t.dropWhile isSpace).reverse.takeWhile isSpace).reverse, ?_, ?_, ?_, ?_, ?_⟩
+  · rw [List.append_assoc, ← h3]; exact h1
+  · intro c hc; exact takeWhile_all _ _ c hc
+  · intro c hc; exact takeWhile_all _ _ c (List.mem_reverse.mp hc)
+  · intro c hc
+    -- the head of `strip t` is the head of `t.dropWhile isSpace`
+    apply dropWhile_head_not isSpace t c
+    rw [h3]
+    cases hs : strip t with
+    | nil => rw [hs] at hc; simp at hc
+    | cons x xs => rw [hs] at hc; simp at hc; subst hc; simp
+  · intro c hc
+    unfold strip at hc
+    rw [List.getLast?_reverse] at hc
+    exact dropWhile_head_not isSpace _ c hc
+
+theorem strip_keeps_head (c : Nat) (t : Text) (hc : isSpace c = false) : (strip (c :: t)).head? = some c := by
+  obtain ⟨a, b, h, ha, hb, _, _⟩ := strip_spec (c :: t)
+  cases a with
+  | nil =>
+    cases hs : strip (c :: t) with
+    | nil =>
+      rw [hs] at h
+      simp at h
+      have := hb c (by rw [← h]; simp)
+      simp [hc] at this
+    | cons x xs => rw [hs] at h; simp at h; simp [h.1]
+  | cons x xs =>
+    simp at h
+    have := ha x (by simp)
+    rw [← h.1] at this
+    simp [hc] at this
+
+
 end Operon.Chaperone
